@@ -8,7 +8,7 @@ def ev_ok(names):
 
 LEDGER_DRIVERS = [{"name": "ledger", "args": {"quick": [60, 120], "thorough": [3000, 300]}}]
 # episodes that need an exact coincidence (harness/src/drv2.rs)
-EDGE_DRIVERS = [{"name": "edge", "args": {"quick": [336], "thorough": [14000]}}]
+EDGE_DRIVERS = [{"name": "edge", "args": {"quick": [360], "thorough": [15000]}}]
 
 
 LEDGER_MODELS = [
